@@ -1218,6 +1218,40 @@ func oneAddressPerKey(w *World, r *Report, rule string) {
 		r.undecided(rule, "wallet.Helper.AddressToPubKey/decoded", w.Pos(fn.Pos()), "the decoded address is identifiable", "no Base58Decode call")
 		return
 	}
+	// what is decoded is the address as given: a normalisation in front of the decoder (trimming, case folding, a prefix
+	// stripped) gives one key several address strings just as an unchecked version byte does
+	for _, c := range callsTo(fn, cn("serializer", "", "Base58Decode")) {
+		arg := c.Common().Args[0]
+		through := ""
+		var walk func(v ssa.Value, d int)
+		walk = func(v ssa.Value, d int) {
+			if v == nil || d > 8 || through != "" {
+				return
+			}
+			switch x := v.(type) {
+			case *ssa.Parameter, *ssa.Const:
+			case *ssa.Convert:
+				walk(x.X, d+1)
+			case *ssa.ChangeType:
+				walk(x.X, d+1)
+			case *ssa.Phi:
+				for _, e := range x.Edges {
+					walk(e, d+1)
+				}
+			case *ssa.Call:
+				through = calleeName(x)
+			case *ssa.Slice:
+				through = "a reslice"
+			case *ssa.BinOp:
+				through = "the operation " + x.Op.String()
+			default:
+				through = fmt.Sprintf("%T", v)
+			}
+		}
+		walk(arg, 0)
+		r.check(through == "", rule, "wallet.Helper.AddressToPubKey/decoder-input", lineOf(w, c), "the decoder is given the address parameter itself",
+			"the address goes through "+through+" before it is decoded: strings that differ only in what that step removes resolve to the same key, and the guards that compare addresses take one wallet for several")
+	}
 	var succ []*ssa.Return
 	for _, ret := range returnsOf(fn) {
 		if successReturn(ret) {
